@@ -100,7 +100,7 @@ pub fn survey(id: &str, n: usize, seed: u64) -> i32 {
                     let mut ctx = crate::core::CaseCtx::default();
                     let res = crate::core::catch(|| match id {
                         "C01" => c01::test_case(&c, &mut ctx),
-                        "C02" => c02::test_case(&c, &mut ctx),
+                        "C02" => c02::test_case_mode(&c, &mut ctx, std::env::var("HV_STRICT_SURVEY").is_ok()),
                         _ => c03::test_doc_case(&c, &mut ctx),
                     });
                     let msg = match res { Ok(Ok(())) => continue, Ok(Err(m)) => m, Err(p) => format!("harness panic {}", p.site()) };
